@@ -316,7 +316,7 @@ class SSeries:
                     return wrap(attr(*[unwrap(x) for x in a], **{k: unwrap(v) for k, v in kw.items()}))
                 return f
             return wrap(attr)
-        raise Inconclusive(f"Series.{name} on symbolic data is not modelled")
+        raise AttributeError(f"Series.{name} on symbolic data is not modelled (shim)")
 
     def __symeval__(self, m):
         return col_eval(m, self._col)
@@ -738,7 +738,7 @@ class SFrame:
                     return wrap(attr(*[unwrap(x) for x in a], **{k: unwrap(v) for k, v in kw.items()}))
                 return f
             return wrap(attr)
-        raise Inconclusive(f"DataFrame.{name} on symbolic data is not modelled")
+        raise AttributeError(f"DataFrame.{name} on symbolic data is not modelled (shim)")
 
     def __symeval__(self, m):
         out = {str(k): col_eval(m, c) for k, c in self._cols.items()}
